@@ -109,11 +109,31 @@ Example ex_stl : exists S, @soup32 (Z * Z) (Z * Z) Z to32_pair
               [] None [[0; 1; 2]] [] [] [] [] [] [] [] [] []) = Some S.
 Proof. eexists. vm_compute. reflexivity. Qed.
 
-(* REFUTED (known finding geogram_ascii/non-tetrahedral-cells/save-raises): the full statement "every cell kind the
-   format can express is written" fails for hexahedra: save raises before anything is written. *)
-Lemma geogram_hexahedra_refuted :
-  exists m : zmesh, mC m = [[0; 1; 2; 3; 4; 5; 6; 7]] /\ print_fmt Fgeo default_sw m = None /\ zsave_geo m = None.
-Proof.
-  exists (zmkmesh (map (fun i => (i, 0, 0)) (zrange 8)) [] None [] [[0; 1; 2; 3; 4; 5; 6; 7]] [] [] [] [] [] [] [] []).
-  repeat split.
-Qed.
+(* hexahedral and mixed volume meshes: the model's geogram round trip evaluated on a witness (the theorem covers them) *)
+Definition ex_hex_mesh : zmesh :=
+  zmkmesh (map (fun i => (bits_of_int i, 0, bits_of_int (i * i))) (zrange 9)) [] None [] [[0; 1; 2; 3; 4; 5; 6; 7]; [0; 1; 2; 8]]
+          [] [] [] [] [zmkattr "ca" TyInt 1 [Run.vI 5; Run.vI 0]] [] [] [].
+Example ex_hex_roundtrip : forallb (fun f => check_roundtrip (f, default_sw, ex_hex_mesh)) [Fmedit; Ftet; Fgeo] = true.
+Proof. vm_compute. reflexivity. Qed.
+
+(* REFUTED (known findings obj/relative-indices, mesh/count-on-keyword-line, mesh/dimension-2): legal files of independent
+   writers that mouette's importers misread.  1.0 = 4607182418800017408, 7.0 = 4619567317775286272 as bit patterns. *)
+Definition ex_obj_relative : list zline :=
+  [[tW "v"; tF 0; tF 0; tF 0]; [tW "v"; tF 4607182418800017408; tF 0; tF 0]; [tW "v"; tF 0; tF 4607182418800017408; tF 0];
+   [tW "f"; tI (-3); tI (-2); tI (-1)]].
+Lemma obj_relative_indices_refuted :
+  exists r, parse_fmt Fobj ex_obj_relative = Some r /\ rF r = [[-4; -3; -2]] /\ rF r <> [[0; 1; 2]].
+Proof. eexists. split; [vm_compute; reflexivity|]. split; [reflexivity|discriminate]. Qed.
+
+Definition ex_medit_inline : list zline :=
+  [[tW "MeshVersionFormatted"; tI 2]; [tW "Dimension"; tI 3]; [tW "Vertices"; tI 1]; [tF 0; tF 0; tF 0; tI 0]; [tW "End"]].
+Lemma medit_inline_count_refuted :
+  exists r1 r2, ref_parse_fmt Fmedit ex_medit_inline = Some r1 /\ parse_fmt Fmedit ex_medit_inline = Some r2
+                /\ rV r1 = [[0; 0; 0]] /\ rV r2 = [].
+Proof. do 2 eexists. repeat split; vm_compute; reflexivity. Qed.
+
+Definition ex_medit_dim2 : list zline :=
+  [[tW "MeshVersionFormatted"; tI 2]; [tW "Dimension"; tI 2]; [tW "Vertices"]; [tI 1]; [tF 0; tF 0; tI 7]; [tW "End"]].
+Lemma medit_dimension2_refuted :
+  exists r, parse_fmt Fmedit ex_medit_dim2 = Some r /\ rV r = [[0; 0; 4619567317775286272]].
+Proof. eexists. split; vm_compute; reflexivity. Qed.
